@@ -5,11 +5,14 @@
 package main
 
 import (
+	"encoding/json"
 	"flag"
 	"fmt"
 	"os"
+	"path/filepath"
 	"runtime"
 	"runtime/pprof"
+	"sort"
 	"strconv"
 	"strings"
 	"sync"
@@ -553,6 +556,25 @@ func main() {
 		}
 	}
 
+	// corpus: recorded minimal cases (regressions of repaired defects, e.g. the classes delivered for deployed
+	// contracts that survived RevertHead before juno commit 007ff78); observed after every op, must pass
+	if files, _ := filepath.Glob("/verif/corpus/C03/*.json"); len(files) > 0 {
+		sort.Strings(files)
+		for _, f := range files {
+			var w struct {
+				Replay Case `json:"replay"`
+			}
+			b, err := os.ReadFile(f)
+			hx.Must(err)
+			hx.Must(json.Unmarshal(b, &w))
+			if w.Replay.Universe == nil {
+				w.Replay.Universe = sh.DefaultUniverse()
+			}
+			jobs = append(jobs, &job{idx: len(jobs), cs: &w.Replay, labels: make([][]string, len(w.Replay.Ops)), family: "corpus"})
+			c.Hist["corpus"]++
+		}
+	}
+
 	workers := numWorkers()
 	var wg sync.WaitGroup
 	next := make(chan *job, len(jobs))
@@ -658,7 +680,7 @@ func main() {
 	pprof.StopCPUProfile()
 	c.Finish("op sequences (4..14 ops) of Store(diff) / RevertHead over 4 contracts x 4 slots (one at 2^250+5) x 3 Cairo0 classes, run on a sequencer+follower pair per state backend; " +
 		"diffs are valid on the tracked abstract state: deployments, replacements of pre-existing contracts (also by the same class), nonces (bump, same, zero, on deploy), " +
-		"writes (non-zero, overwrite, back to zero, same value, zero to a zero slot), deploy-and-touch, Cairo0 declarations (also repeated); reverts come in bursts (1..3 or down to genesis) and are " +
+		"writes (non-zero, overwrite, back to zero, same value, zero to a zero slot), deploy-and-touch, Cairo0 declarations (also repeated), class definitions delivered for the block's deployed contracts without being declared (10% of the deploying blocks; known and unknown hashes); reverts come in bursts (1..3 or down to genesis) and are " +
 		"followed by a different block or (25%) the reverted block again (same or new salt); the follower is read by number, by hash (every block) and at head after every revert, two random ops and the last op; " +
 		"every answer is compared with the truth line, the model read and c03_ok; non-trivial = a revert followed by a store, or a zero / same-value write; distinct by (backend, op sequence). " +
 		"System-contract family (cases/5 per backend, classes syscontract:...): 3..11 ops over 0x1, 0x2 and one ordinary contract x 3 slots - creation by a first write, growth, overwrites, same-value and zero writes, zero writes to a missing contract, " +
